@@ -330,6 +330,7 @@ def run(fx, tier):
                     v.check(wt == 1, 'R-PAIR', '%s:path%d:quota' % (name, pi),
                             'path holding quota completes with free_pid(id, %s)' % bool(wt),
                             key='C07:R-PAIR:publish_send_op::%s:quota-not-returned' % (f.tag or f.n), where=fr.where())
+    throttled_flag_owner_rule(fx, v, 'C07')
     # the sender learns the limit of a NEW connection only in resend(): both parties that notice a completed (re)connect
     # (the reader and the write completion) call it on the try_again edge, unconditionally — otherwise the quota of the
     # previous connection (or "unlimited") stays in force
@@ -393,3 +394,42 @@ def _is_throttled_call(cmp_, want):
                 and isinstance(unwrap(b), dict) and unwrap(b).get('c') == 0:
             return (op == '!=') == want
     return False
+
+
+def throttled_flag_owner_rule(fx, v, prop):
+    """Only QoS 1/2 PUBLISH packets (and their PUBREL re-sends) count against Receive Maximum.  Any other packet queued
+    with send_flag::throttled takes a quota unit that nothing ever returns (its sender never calls throttled_op_done):
+    after Receive Maximum such packets, that kind of packet - e.g. the PUBCOMP answering a PUBREL - is never written again."""
+    thr = None
+    for e in fx.enums.values():
+        if e['q'].endswith('send_flag') or 'send_flag' in e['q']:
+            thr = e['values'].get('throttled')
+    if thr is None:
+        for c in fx.constants:
+            if c['q'].endswith('send_flag::throttled') and isinstance(c.get('value'), dict):
+                thr = c['value'].get('v')
+    if thr is None:
+        raise AnalysisBroken('send_flag::throttled not found')
+    n = 0
+    seen = set()
+    for f in fx.fns:
+        if not f.path_file().startswith('boost/mqtt5/impl/') or f.cls in ('client_service', 'async_sender'):
+            continue
+        for b, i, l, c in f.calls():
+            if callee_name(c) != 'async_send' or callee_cls(c) != 'client_service' or len(c.get('args', [])) < 3:
+                continue
+            key = (f.cls, f.n, f.tag, l, f.tu)
+            if key in seen:
+                continue
+            seen.add(key)
+            n += 1
+            a = origin(f, c['args'][2])
+            cv = peval(a)
+            if f.cls == 'publish_send_op':
+                continue
+            ok = cv is not None and (cv & thr) == 0
+            v.check(ok, 'R-OWN', '%s::%s%s sends with flags %s [%s]' % (f.cls, f.n, '(%s)' % f.tag if f.tag else '', cv, f.tu),
+                    'only publish_send_op queues packets that count against Receive Maximum (flags must be a constant without send_flag::throttled)',
+                    key='%s:R-OWN:throttled-flag:%s::%s' % (prop, f.cls, f.n), where='%s:%s' % (f.path_file(), l))
+    if n < 6:
+        raise AnalysisBroken('only %d async_send call sites found' % n)
